@@ -3,6 +3,7 @@ use proc_macro2::TokenStream;
 use quote::format_ident;
 use quote::quote;
 
+use crate::codegenerator::data_structure::generate_item_locationinfo_init;
 use crate::codegenerator::{BaseType, DataItem, EnumItem, TaggedItem};
 use crate::util::{make_varname, ucname_to_typename};
 
@@ -106,6 +107,10 @@ fn generate_indirect_store_item(structitems: &[DataItem]) -> Vec<TokenStream> {
                     is_integer || matches!(**seqtype, BaseType::Float | BaseType::Double);
                 let locationinfo = if is_integer {
                     quote! {(*#location.get(idx).unwrap_or_else(|| &(0, false)))}
+                } else if matches!(**seqtype, BaseType::Array { .. }) {
+                    // the location info of an array has one entry per element
+                    let default_location = generate_item_locationinfo_init(seqtype, 0);
+                    quote! {(*#location.get(idx).unwrap_or_else(|| &#default_location))}
                 } else {
                     quote! {(*#location.get(idx).unwrap_or_else(|| &0))}
                 };
